@@ -17,6 +17,9 @@ package main
 import (
 	"fmt"
 	"os"
+	"runtime"
+	"runtime/debug"
+	"runtime/pprof"
 	"sort"
 	"strconv"
 	"strings"
@@ -79,6 +82,9 @@ func genBase() int {
 
 func (comp) Gen(r *kit.Rng, maxLen int, tier string) kit.Case {
 	ensureTable()
+	if tier == "thorough" {
+		refsPct = 35
+	}
 	combo := (genBase() + genCount) % 16
 	genCount++
 	var ops []string
@@ -291,5 +297,16 @@ func main() {
 		return
 	}
 	defer cleanupWorkDir()
+	// one logical thread of work that allocates a lot (the loader re-parses its metadata on every
+	// start-up): fewer GC cycles and fewer GC workers make the shards of a run cheaper
+	debug.SetGCPercent(400)
+	if runtime.GOMAXPROCS(0) > 4 {
+		runtime.GOMAXPROCS(4)
+	}
+	if f := os.Getenv("VERIF_PPROF"); f != "" {
+		fh, _ := os.Create(f)
+		pprof.StartCPUProfile(fh)
+		defer pprof.StopCPUProfile()
+	}
 	kit.Main(comp{}, facts)
 }
